@@ -1128,12 +1128,21 @@ class Container:
 
         if isinstance(solute, Substance):
             solute = [solute]
-        elif not isinstance(solute, list) or any(not isinstance(substance, Substance) for substance in solute):
+        elif not isinstance(solute, Iterable) or isinstance(solute, str):
             raise TypeError("Solute(s) must be a Substance.")
+        else:
+            solute = list(solute)
+            if any(not isinstance(substance, Substance) for substance in solute):
+                raise TypeError("Solute(s) must be a Substance.")
 
         concentration = kwargs.get('concentration', None)
         quantity = kwargs.get('quantity', None)
         total_quantity = kwargs.get('total_quantity', None)
+        # any iterable of strs, one-shot ones included
+        if concentration is not None and not isinstance(concentration, str) and isinstance(concentration, Iterable):
+            concentration = list(concentration)
+        if quantity is not None and not isinstance(quantity, str) and isinstance(quantity, Iterable):
+            quantity = list(quantity)
 
         original_solvent = solvent
         # The solvent (portion) is taken to contribute none of the solutes: a solute that is its own solvent, or a
